@@ -48,8 +48,9 @@ P = {
          "login and the swing frame; nothing actionable and an empty login reply raise RuntimeError after the login frame only. "
          "Per run 1000+ (current state, request subset, remote kind, update flag, fault) cases against the real client.", "5 C16",
          "replies that fail to parse or are empty after the login are covered by the per-run oracle and C09's theorems, not by the exactness theorems"),
- "C17": ("proof", "Theorem over all action sequences and port lists of the lifecycle model: running iff all ports held, nothing held when not "
-         "running (also after a failed start), delivery iff held; per run every action sequence of length <= 3 on real UDP sockets with "
+ "C17": ("proof", "Theorems over all action sequences and port lists of the lifecycle model: running iff all ports held, nothing held when not "
+         "running (also after a failed start), delivery iff held; the same for any number of bridge objects in one process, with "
+         "non-interference between objects (start, failed start, stop of another object change nothing); per run every action sequence of length <= 3 on real UDP sockets with "
          "probe binds.", "5 C17", "partial: deferred socket release timing is asyncio's and only exercised"),
  "C18": ("proof", "Theorem over all action sequences of the client lifecycle model; per run every sequence of length <= 3 for both API "
          "classes against a fake device observing the flag, open connections and EOFs.", "5 C18", "partial: GC of abandoned sockets and peer resets are outside the model"),
